@@ -459,6 +459,9 @@ ZonedOutcome(R) ==
            b == IF o.k = "z" THEN EpochNs(DFC(R.date), Sod(R.time), R.time.fr, 0, 0)
                 ELSE EpochNs(DFC(R.date), Sod(R.time), R.time.fr, zmin * 60, 0)
        IN IF mismatch THEN Reject("offset-does-not-match-time-zone")
+          \* InterpretISODateTimeOffset step 7 (offset option reject): CheckISODaysRange of the WALL date, so the first local day of the
+          \* range in a zone west of UTC (-271821-04-19) cannot be read with an explicit offset although its instant is valid
+          ELSE IF o.k = "num" /\ (DFC(R.date) < -100000000 \/ DFC(R.date) > 100000000) THEN Reject("wall-date-outside-iso-days-range")
           ELSE IF ~InstantOK(b) THEN Reject("instant-outside-limits")
           ELSE Accept([ns |-> b, tz |-> IF R.tz.k = "offset" THEN Chars(OffsetText(zmin)) ELSE R.tz.id, cal |-> CalId(R)])
 
